@@ -251,6 +251,98 @@ def nary_bool_oracle(chk, rng, thorough):
                      "hy_compile(hy.read_many(src)); ast.walk Names")
 
 
+FALSY_TWINS = [("0", "1"), ('""', '"s"'), ("#()", "#(1)"), ("[]", "[1]"), ("False", "True"), ("0.0", "1.5")]
+EXTRA_LITERAL_TEMPLATES = ["(cut (xs) %s)", "(cut (xs) %s %s)", "(cut (xs) %s %s %s)", "(get (xs) %s)", "(f :k %s)", "(setv (cut (xs) %s %s) %s)",
+                           "(del (cut (xs) %s %s %s))", "(. (xs) [%s])", "(range %s %s %s)"]
+
+
+def _unparse(tree):
+    try:
+        return ast.unparse(tree)
+    except Exception as e:        # an AST that Python cannot even print
+        return "<unparse fails: %s> %s" % (type(e).__name__, ast.dump(tree)[:300])
+
+
+def _signature(tree):
+    sig = {}
+    for n in ast.walk(tree):
+        k = type(n).__name__
+        sig[k] = sig.get(k, 0) + 1
+    return sig
+
+
+def falsy_literal_oracle(chk, rng, thorough):
+    """every evaluated slot filled with a FALSY literal (0, "", #(), [], False, 0.0), the other slots with calls: the compiled
+    code must have the shape it has with the truthy twin of that literal (1, "s", #(1), [1], True, 1.5) in the same slot --
+    a literal is a subform like any other and is not dropped because it is falsy"""
+    for tpl in EXTRA_LITERAL_TEMPLATES + TEMPLATES:
+        k = tpl.replace("%%", "").count("%s")
+        if tpl.startswith(("(py", "(quasiquote", "(print f")) or not k:
+            continue
+        for i in range(k):
+            always = tpl in EXTRA_LITERAL_TEMPLATES or tpl.startswith(("(cut", "(get"))
+            twins = FALSY_TWINS if (thorough or always) else rng.sample(FALSY_TWINS, 2)
+            for fl, tr in twins:
+                fills_f = ["(v%d)" % j if j != i else fl for j in range(k)]
+                fills_t = ["(v%d)" % j if j != i else tr for j in range(k)]
+                src_f, src_t = tpl % tuple(fills_f), tpl % tuple(fills_t)
+                rf, rt = compile_src(src_f), compile_src(src_t)
+                chk.count("falsy-literal:%s/%s" % (rf[0], rt[0]))
+                chk.case("Z:" + src_f, nontrivial=(rf[0] == "OK"), sample={"program": src_f, "outcome": rf[0]} if (tpl == "(cut (xs) %s %s %s)" and i == 2 and fl == "0") else None)
+                if rf[0] == "OTHER":
+                    chk.fail("internal-error", {"program": src_f}, rf[1], "AST or Hy error", "hy_compile(hy.read_many(src))")
+                    continue
+                if rf[0] != "OK" or rt[0] != "OK":
+                    continue
+                sf, st = _signature(rf[1]), _signature(rt[1])
+                if fl in ("#()", "[]"):
+                    sf.pop("Constant", None)
+                    st.pop("Constant", None)
+                missing = [v for v in ("v%d" % j for j in range(k) if j != i) if v not in names_loaded(rf[1])]
+                if sf != st or missing:
+                    chk.fail("falsy-literal-dropped", {"program": src_f, "twin": src_t, "missing": missing},
+                             "compiled: %s" % _unparse(rf[1])[:200],
+                             "the shape of the twin's code: %s" % _unparse(rt[1])[:200],
+                             "hy_compile(hy.read_many(src)) for the program and its twin; node-type counts of both ASTs")
+
+
+UNPACK_CONTEXTS = {
+    "unpack-mapping": ["(f %s)", "(f (x) %s :k (w))", "{(k1) (w) %s}", "(.meth %s (obj))", "(. (obj) (meth %s))", "(defclass C [Base %s])",
+                       "(f %s %s)"],
+    "unpack-iterable": ["(f %s)", "(f (x) %s :k (w))", "[(x) %s]", "#{%s (x)}", "#(%s)", "(.meth %s (obj))", "(defclass C [Base %s])",
+                        "(setv [a %s] (x))"],
+}
+
+
+def long_form_unpack_oracle(chk):
+    """(unpack-mapping ...) / (unpack-iterable ...) written out with 0, 1, 2, 3 operands in every slot that takes an unpacking:
+    a Hy error, or every operand appears in the compiled code"""
+    for form, ctxs in UNPACK_CONTEXTS.items():
+        for ctx in ctxs:
+            for nops in range(0, 4):
+                leaves = ["u%d" % j for j in range(nops)]
+                unp = "(%s%s)" % (form, "".join(" (%s)" % v for v in leaves))
+                src = ctx.replace("%s", unp)
+                if ctx.startswith("(setv [a"):
+                    leaves = []
+                    unp = "(%s%s)" % (form, "".join(" r%d" % j for j in range(nops)))
+                    src = ctx % unp
+                r = compile_src(src)
+                chk.count("long-form-unpack:%s:%d operands:%s" % (form, nops, r[0]))
+                chk.case("U:" + src, nontrivial=(r[0] == "OK"))
+                if r[0] == "OTHER":
+                    chk.fail("internal-error", {"program": src}, r[1], "AST or Hy error", "hy_compile(hy.read_many(src))")
+                elif r[0] == "OK":
+                    present = names_loaded(r[1]) | {n.id for n in ast.walk(r[1]) if isinstance(n, ast.Name)}
+                    want = leaves if leaves else ["r%d" % j for j in range(nops)]
+                    missing = [v for v in want if v not in present]
+                    if missing or nops != 1:
+                        chk.fail("unpack-operand-dropped", {"program": src, "missing": missing},
+                                 "compiles to: %s" % _unparse(r[1])[:200],
+                                 "a Hy error (the form takes exactly one operand), or every operand in the compiled code",
+                                 "hy_compile(hy.read_many(src)); ast.walk Names")
+
+
 BARE_NAME_PROBES = ["(do (do (setv zz 1) v0) 1)", "(do (if a (do (f) v0) v1) 2)", "(while c (do (f) v0))"]
 
 
@@ -274,6 +366,8 @@ def run(chk):
     collector_correspondence(chk, chk.rng, 6000 if thorough else 800)
     slot_oracle(chk, chk.rng, 60 if thorough else 8)
     nary_bool_oracle(chk, chk.rng, thorough)
+    falsy_literal_oracle(chk, chk.rng, thorough)
+    long_form_unpack_oracle(chk)
     bare_name_probe(chk)
     chk.rule = ("(a) argument lists of length 0-5 mixing forms, #*, #**, keywords in list/set/tuple displays, calls and dicts: "
                 "model vs hy_compile slot structure or error; (b) %d templates of core forms, every evaluated position filled "
